@@ -277,21 +277,25 @@ theorem finv_stepFind (s : Stack) (n : Nat) (t t' : TaskSt) (hi : FInv s) (ht : 
     rename_i hin
     rw [hpc] at hin
     rw [hin] at hlog
+    have hiM : FInv (s.markFind n) := finv_frame (fpi_markFind _ _) hi
+    have htM : ftask (s.markFind n) n = some t := ht
     split
     · exact finv_finish s n t t' hi ht
     · split
-      · exact finv_finish s n t t' hi ht
-      · exact finv_round s n 0 t t' _ hi ht (by simpa [sentAt] using hlog) (Nat.zero_le _) hown
+      · exact finv_finish (s.markFind n) n t t' hiM htM
+      · exact finv_round (s.markFind n) n 0 t t' _ hiM htM (show rounds s.findLog n = List.range 0 by simpa [sentAt] using hlog) (Nat.zero_le _) hown
   · -- rep k
     rename_i k hrep
     rw [hpc] at hrep
     rw [hrep] at hlog
     obtain ⟨h1, h2⟩ := hlog
+    have hiM : FInv (s.markFind n) := finv_frame (fpi_markFind _ _) hi
+    have htM : ftask (s.markFind n) n = some t := ht
     split
     · exact finv_finish s n t t' hi ht
     · split
-      · exact finv_finish s n t t' hi ht
-      · exact finv_round s n (k + 1) t t' _ hi ht h1 (by omega) hown
+      · exact finv_finish (s.markFind n) n t t' hiM htM
+      · exact finv_round (s.markFind n) n (k + 1) t t' _ hiM htM h1 (show k + 1 ≤ s.tm.repetitionsMax by omega) hown
   · exact hi
 
 theorem taskCount_find (s : Stack) : s.taskCount .find = (ftasks s).length := rfl
@@ -299,7 +303,7 @@ theorem taskCount_find (s : Stack) : s.taskCount .find = (ftasks s).length := rf
 theorem discoveryStart_cases (s : Stack) :
     s.discoveryStart = s ∨
     ((∀ n t, s.findTask = some n → s.getTask (.find, n) = some t → t.pc = .done) ∧
-     s.discoveryStart = ({ (s.createTask .find).1 with findTask := some (s.createTask .find).2 } : Stack)) := by
+     s.discoveryStart = (({ (s.createTask .find).1 with findTask := some (s.createTask .find).2 } : Stack).markFind (s.createTask .find).2)) := by
   unfold discoveryStart
   simp only []
   by_cases hrun : ∃ n t, s.findTask = some n ∧ s.getTask (.find, n) = some t ∧ t.pc ≠ .done
@@ -324,6 +328,7 @@ theorem finv_discoveryStart (s : Stack) (hi : FInv s) : FInv s.discoveryStart :=
   rcases discoveryStart_cases s with h | ⟨hrun, h⟩
   · rw [h]; exact hi
   · rw [h]
+    apply finv_frame (fpi_markFind _ _)
     have hnotrun : ∀ m t, ftask s m = some t → t.pc ≠ .done → t.cancelled = false → False := by
       intro m t ht hpc hc
       have hown := hi.own m t ht hpc hc
